@@ -56,8 +56,8 @@ func runScramSequenceWith(c *Ctx, mech string, seq []string, custom bool) {
 			if err == nil {
 				s := string(raw)
 				switch {
-				case strings.HasPrefix(s, "n,,"):
-					clientFirstBare = s[3:]
+				case strings.HasPrefix(s, "n,,") || (strings.HasPrefix(s, "p=") && strings.Contains(s, ",,n=")):
+					clientFirstBare = s[strings.Index(s, ",,")+2:]
 					if j := strings.LastIndex(clientFirstBare, ",r="); j >= 0 {
 						cnonce = clientFirstBare[j+3:]
 					}
@@ -193,7 +193,28 @@ func runScramSequenceWith(c *Ctx, mech string, seq []string, custom bool) {
 		}
 		sc.Redial = &re
 	}
-	run := runDialCase(c, sc, fmt.Sprintf("len=%d:%s", len(seq), seq[len(seq)-1]), second == nil)
+	var run *DialRun
+	if strings.HasSuffix(mech, "-PLUS") {
+		// a channel-bound Auth value of the caller (built for a TLS connection state of the caller's making) on the
+		// scripted connection: the built-in types would refuse without TLS, so there is no model line; oracle only
+		run = RunDial(sc)
+		if run.Panic != nil || (run.Err != nil && strings.HasPrefix(run.Err.Error(), "config:")) {
+			c.Violate("dial-panic", fmt.Sprintf("the client panicked / was not configured: %v %v", run.Panic, run.Err), sc)
+			return
+		}
+		c.Count(second == nil, mech+":"+strings.Join(seq, ","), fmt.Sprintf("plus:len=%d:%s", len(seq), seq[len(seq)-1]))
+		_, _, _ = scramModelInputs(sc, run)
+		if run.Second != nil {
+			_, _, _ = scramModelInputs(sc, run.Second)
+			if run.Second.Err == nil {
+				_ = run.Client.Close()
+			}
+		} else if run.Err == nil {
+			_ = run.Client.Close()
+		}
+	} else {
+		run = runDialCase(c, sc, fmt.Sprintf("len=%d:%s", len(seq), seq[len(seq)-1]), second == nil)
+	}
 	if run == nil {
 		return
 	}
